@@ -5,6 +5,7 @@ import (
 	"gtsverif/engines/cachekey"
 	"gtsverif/engines/conserve"
 	"gtsverif/engines/effects"
+	"gtsverif/engines/globals"
 	"gtsverif/engines/integrity"
 	"gtsverif/engines/orders"
 	"gtsverif/engines/siblings"
@@ -26,8 +27,13 @@ func init() {
 		tables.PrefixAll(p, r)
 		tables.DBLinkAgree(p, r)
 		tables.BlankLine(p, r)
+		traps.NoDump(p, r)
 	})
-	register("C16", false, func(p *core.Prog, r *core.Report, tier string) { tables.C16(p, r) })
+	register("C16", false, func(p *core.Prog, r *core.Report, tier string) {
+		tables.C16(p, r)
+		tables.ResidueClass(p, r)
+		globals.ShallowCache(p, r)
+	})
 	register("C02", true, func(p *core.Prog, r *core.Report, tier string) {
 		effects.PureOps(9, "Insert", "Embed", "(FeatureSlice).Insert", "*.Shift", "*.Expand")(p, r)
 		conserve.C02(p, r)
@@ -67,6 +73,7 @@ func init() {
 		orders.Compare3(p, r)
 		conserve.FilterRule(p, r)
 		conserve.QuantAll(p, r)
+		conserve.NotOfOr(p, r)
 		conserve.QualifierRules(p, r)
 		conserve.SelectorRules(p, r)
 		r.NotDecided = append(r.NotDecided, "selector grammar and regexp semantics", "the tie-break and the recursive cases of LocationLess", "boolean-algebra laws of And/Or/Not", "the binary search of FeatureSlice.Insert")
@@ -112,6 +119,7 @@ func init() {
 	register("C17", false, func(p *core.Prog, r *core.Report, tier string) {
 		tables.C17(p, r)
 		conserve.SliceRegion(p, r)
+		globals.ShallowCache(p, r)
 		tables.C16(p, r) // conversion to FASTA decodes the ORIGIN block: its layout rules are necessary for "keeps residues"
 	})
 	register("C06", true, func(p *core.Prog, r *core.Report, tier string) {
@@ -124,12 +132,22 @@ func init() {
 	})
 	register("C15", false, func(p *core.Prog, r *core.Report, tier string) {
 		conserve.C15(p, r)
+		multi := []string{"delete", "insert", "infix", "split", "rotate", "extract"}
+		conserve.StaleGuard(p, r, multi)
+		conserve.EmitAll(p, r, multi, 4)
+		conserve.UniqueCuts(p, r)
 		conserve.LocatorFresh(p, r)
 		orders.SegmentOrder(p, r)
 		orders.RegionAlgebra(p, r, 2)
 	})
-	register("C07", true, func(p *core.Prog, r *core.Report, tier string) { traps.C07(p, r) })
-	register("C11", true, func(p *core.Prog, r *core.Report, tier string) { effects.C11(p, r) })
+	register("C07", true, func(p *core.Prog, r *core.Report, tier string) {
+		traps.C07(p, r)
+		traps.NoDump(p, r)
+	})
+	register("C11", true, func(p *core.Prog, r *core.Report, tier string) {
+		effects.C11(p, r)
+		globals.ShallowCache(p, r)
+	})
 	register("C13", false, func(p *core.Prog, r *core.Report, tier string) { integrity.C13(p, r) })
 	register("C14", false, func(p *core.Prog, r *core.Report, tier string) { cachekey.C14(p, r) })
 }
@@ -140,8 +158,11 @@ func init() {
 		conserve.RepairRules(p, r)
 		conserve.MergeRanged(p, r)
 		conserve.ConcatOffset(p, r)
+		conserve.UniqueCuts(p, r)
+		conserve.EmitAll(p, r, []string{"split"}, 1)
 		r.NotDecided = append(r.NotDecided, "that a cut feature is restored to its original location", "idempotence", "which abutting fragments Push merges (partial3 meets partial5)", "that the residues covered by each class are unchanged")
 	})
 }
+
 
 
